@@ -22,7 +22,7 @@ VARIABLES q,      \* abstract queue content
 
 qvars == <<q, cap, kind, pend>>
 
-Threads == {0, 1}
+Threads == 0..2     \* 0 = producer, 1..2 = consumers (2 only with consumer hand-over)
 Idle == [st |-> "idle", a |-> "-", v |-> 0, r |-> "-", rv |-> 0]
 
 QInit(k, c) ==
